@@ -155,16 +155,30 @@ def _run_module(spec, res, tag_extra=""):
     if hasattr(M, 'betaup3'):
         close(res, f"{name}.betaup3", tbucket, M.betaup3(t0, x, y, z), ex['betaup3'],
               1e-12, scale=1.0)
-    if not cfg.get('numeric') and hasattr(M, 'gammadown3') and name not in ('EdS',):
+    if hasattr(M, 'gammadown3') and name not in ('EdS',):
         import sympy as sp
         try:
             t, xs, ys, zs = sp.symbols('t x y z', real=True, positive=True)
-            gs = M.gammadown3(t, xs, ys, zs, analytical=True)
-            f = sp.lambdify((t, xs, ys, zs), gs, 'numpy')
-            pts = [(t0, float(x.flat[i]), float(y.flat[i]), float(z.flat[i])) for i in range(4)]
-            want = np.array([np.array(f(*p), float) for p in pts])
-            got = np.array([M.gammadown3(t0, x, y, z)[:, :].reshape(3, 3, -1)[:, :, i] for i in range(4)])
-            close(res, f"{name}.gammadown3 analytical=True/False", tbucket, got, want, 1e-12)
+            gs = sp.Matrix(np.array(M.gammadown3(t, xs, ys, zs, analytical=True), dtype=object).tolist())
+            gotall = np.asarray(M.gammadown3(t0, x, y, z)).reshape(3, 3, -1)
+            want, got = [], []
+            for i in range(4):
+                pt = {t: t0, xs: float(x.flat[i]), ys: float(y.flat[i]), zs: float(z.flat[i])}
+                # (subs + evalf also evaluates special functions such as hyper)
+                want.append(np.array(gs.subs(pt).evalf(25), dtype=float))
+                got.append(gotall[:, :, i])
+            want, got = np.array(want), np.array(got)
+            # component by component (the entries differ by orders of magnitude)
+            sc = np.maximum(np.abs(want), 1e-300)
+            res['observations'] += 1
+            bad = np.abs(got - want) > (1e-9 if cfg.get('numeric') else 1e-12) * np.maximum(sc, 1e-12 * np.abs(want).max())
+            if np.any(bad):
+                ii = np.argwhere(bad)[0]
+                common.add_violation(res, f"{name}.gammadown3 analytical=True/False", {
+                    "component": [int(ii[1]), int(ii[2])], "t": t0,
+                    "numeric": float(got[tuple(ii)]), "symbolic": float(want[tuple(ii)])})
+            else:
+                res['nontrivial'].append([f"{name}.gammadown3 analytical=True/False", tbucket])
         except TypeError:
             pass
     # ---- integer-valued coordinates stored with an integer dtype
@@ -184,6 +198,28 @@ def _run_module(spec, res, tag_extra=""):
                     common.add_violation(res, f"{name}.{fn} differs for integer-dtype coordinates", {})
                 else:
                     res['nontrivial'].append([f"{name}.{fn} int coords", tbucket])
+    # ---- what was returned stays what it was when the function is called
+    # again for another time on a grid of the same shape (time series)
+    t1 = float(np.clip(t0 * 1.07, *cfg['t']))
+    if t1 == t0:
+        t1 = float(np.clip(t0 * 0.93, *cfg['t']))
+    for fn in ('gammadown3', 'Kdown3', 'gdown4', 'Tdown4', 'alpha', 'betaup3', 'rho', 'press'):
+        if not hasattr(M, fn):
+            continue
+        try:
+            r1 = getattr(M, fn)(t0, x, y, z)
+        except TypeError:
+            continue
+        if not isinstance(r1, np.ndarray):
+            continue
+        keep = r1.copy()
+        getattr(M, fn)(t1, x, y, z)
+        res['observations'] += 1
+        if not np.array_equal(r1, keep, equal_nan=True):
+            common.add_violation(res, f"{name}.{fn}: an array returned earlier changed when the "
+                                      "function was called again", {"t_first": t0, "t_second": t1})
+        else:
+            res['nontrivial'].append([f"{name}.{fn} result stable", tbucket])
     # ---- extrinsic curvature
     Kscale = max(np.abs(ex['Kdown3']).max(), np.abs(ex['st_Gamma_udd4']).max() * np.abs(ex['gammadown3']).max())
     close(res, f"{name}.Kdown3", tbucket, M.Kdown3(t0, x, y, z), ex['Kdown3'], tol, scale=Kscale)
